@@ -37,7 +37,7 @@ deriving DecidableEq, Repr
 inductive Obs
   | ok (es : List Entry)
   | resample         -- the sample point hits a pole / discontinuity of an atom: take another point
-  | unsupported      -- outside what the observation can express (e.g. modulated derivative of a delta)
+  | unsupported      -- outside what the observation can express
 deriving Repr
 
 def tkIdx : TK → Nat | .sinc => 0 | .gauss => 1
@@ -60,6 +60,12 @@ def foldPhase (ph : Rat) (v : CQ) : Rat × CQ :=
   else if p == 1 / 2 then (0, -v)
   else if p == 3 / 4 then (0, -(CQ.I * v))
   else (p, v)
+
+/-- binomial coefficient (Pascal) -/
+def binom : Nat → Nat → Nat
+  | _, 0 => 1
+  | 0, _ + 1 => 0
+  | n + 1, k + 1 => binom n k + binom n (k + 1)
 
 def tatom (k : TK) (a b : Rat) : TAtom := ⟨k, rabs a, rsgn a * b⟩
 
@@ -100,13 +106,18 @@ def sampleTerm (pi x0 : Rat) (t : Term) : Obs :=
       let d : CQ := al + ⟨0, 2 * pi * y⟩
       if d.isZero then .resample else reg (t.c * (d.npow n).inv) 0 0 []
   | .delta n =>
-      -- c e^{j2πph} e^{j2πθx} δ^{(n)}(a x + b) = c/(|a| a^n) e^{j2π(ph + θ x*)} δ^{(n)}(x − x*),  x* = −b/a   (n = 0 or θ = 0)
-      if n != 0 && t.th != 0 then .unsupported else
+      -- c e^{j2πph} e^{j2πθx} δ^{(n)}(a x + b) = w e^{j2πph} g(x) δ^{(n)}(x − x*),  x* = −b/a,  w = c/(|a| aⁿ),  g = e^{j2πθx}, and
+      --   g δ^{(n)}(x − x*) = Σ_k (−1)^k C(n,k) g^{(k)}(x*) δ^{(n−k)}(x − x*),   g^{(k)}(x*) = (j2πθ)^k e^{j2πθx*}
       let xs := deltaLoc t
       let w := deltaWeight n t
       if w.isZero then .ok [] else
-      let (p, w') := foldPhase (t.ph + t.th * xs) w
-      .ok [⟨true, n, xs, 0, 0, p, [], w'⟩]
+      let ks := if t.th == 0 then [0] else List.range (n + 1)
+      .ok (ks.filterMap fun k =>
+        let coef : CQ := CQ.smul ((-1) ^ k * (binom n k : Rat)) ((⟨0, 2 * pi * t.th⟩ : CQ).npow k)
+        let v := w * coef
+        if v.isZero then none else
+        let (p, v') := foldPhase (t.ph + t.th * xs) v
+        some ⟨true, n - k, xs, 0, 0, p, [], v'⟩)
 
 def sample (pi x0 : Rat) (x : E) : Obs :=
   x.foldr (fun t acc =>
